@@ -104,7 +104,7 @@ func (v *Vue) evalAttributes(ctx VueContext, n *html.Node) (map[string]any, erro
 		if staticIdx >= 0 {
 			// Merge with static attribute (special handling for class and style)
 			if attrName == "class" {
-				newAttrs[staticIdx].Val = fmt.Sprintf("%s %s", newAttrs[staticIdx].Val, boundValue)
+				newAttrs[staticIdx].Val = fmt.Sprintf("%s %v", newAttrs[staticIdx].Val, boundValue)
 				continue
 			}
 			if attrName == "style" {
